@@ -89,6 +89,10 @@ type Path struct {
 	concSeed   uint64
 	concPos    int
 	pinned     []ReplayVal
+	spec       int // >0: speculative evaluation (if-conversion); decisions abort it
+	noMerge    bool
+	noDivAxiom bool
+	merges     int
 }
 
 type ufApp struct {
@@ -153,6 +157,9 @@ func (p *Path) feasible(c *Term) bool {
 // choose makes an n-way decision. alts[i] is the condition under which
 // alternative i is possible (nil = unconditional).
 func (p *Path) choose(alts []*Term, label string) int {
+	if p.spec > 0 {
+		panic(specAbort{"decision: " + label})
+	}
 	if p.pos < len(p.prefix) {
 		c := p.prefix[p.pos]
 		p.pos++
@@ -213,6 +220,9 @@ func (p *Path) branch(c *Term) bool {
 func (p *Path) concretize(t *Term, what string) int {
 	if t.IsConst() {
 		return int(t.Int64())
+	}
+	if p.spec > 0 {
+		panic(specAbort{"concretize"})
 	}
 	for {
 		var v int64
